@@ -491,6 +491,49 @@ func (fr *Frame) findLoops() bool {
 			fr.loops[h].spec = fr.contract.Loops[i+1]
 		}
 	}
+	// anchored loop specs ("loop @callee …"): the innermost loop whose body calls callee
+	if fr.contract != nil {
+		for _, pat := range sortedKeys(fr.contract.AnchoredLoops) {
+			spec := fr.contract.Loops[fr.contract.AnchoredLoops[pat]]
+			var best *loopInfo
+			for _, h := range heads {
+				li := fr.loops[h]
+				hit := false
+				for b := range li.body {
+					for _, in := range b.Instrs {
+						if cc := callCommonOf(in); cc != nil {
+							if _, isB := cc.Value.(*ssa.Builtin); isB {
+								continue
+							}
+							if !cc.IsInvoke() && cc.StaticCallee() == nil {
+								continue // calls of function values: not usable as anchors
+							}
+							if siteMatches(fr.calleeDisplayQuick(cc), pat) {
+								hit = true
+							}
+						}
+					}
+				}
+				if hit && (best == nil || len(li.body) < len(best.body)) {
+					best = li
+				}
+			}
+			if best == nil || spec == nil {
+				continue
+			}
+			merged := &LoopSpec{Ord: best.ord}
+			if best.spec != nil {
+				*merged = *best.spec
+				merged.Invs = append([]Clause{}, best.spec.Invs...)
+			}
+			merged.Invs = append(merged.Invs, spec.Invs...)
+			merged.Assigns = append(merged.Assigns, spec.Assigns...)
+			if spec.IsOrderFree {
+				merged.IsOrderFree = true
+			}
+			best.spec = merged
+		}
+	}
 	return true
 }
 
